@@ -5,10 +5,10 @@
  "enforce": ["clearbit"],
  "replace": [],
  "annotate": ["events/events_network.c"],
- "defines": ["VERIF_HALLOC", "NET_FIXCAP"],
+ "defines": ["VERIF_HALLOC", "NET_FIXCAP", "NS_Q=2", "NF_Q=2", "NF_A=2"],
  "allow_undefined": ["libcperciva_warn", "libcperciva_warnx"],
  "models": ["models/ev_poll.c", "models/ev_atexit.c", "models/ev_selectstats.c"],
- "timeout": 300,
+ "timeout": 120,
  "assumptions": ["object-size parameters: <= NS_Q descriptors in S, <= NF_Q initialised / NF_A allocated pollfd entries (for-all invariants expanded over these constants)",
                  "meta-level induction over histories (L-ind)"]
 }
